@@ -26,6 +26,7 @@ import (
 	"regexp"
 	"sort"
 	"strconv"
+	"strings"
 
 	"github.com/markkurossi/mpc/ot"
 )
@@ -440,14 +441,36 @@ func (run *c15Run) evalPattern(c *Ctx, r *RNG, baseIdx int, p *c15Pattern) SX {
 		what := fmt.Sprintf("sender accepted but its outputs violate the correlation for the receiver's original choices (class %s, %d flip(s), %d in selected columns of payload rows)", p.Class, len(p.Flips), selPay)
 		if trivial {
 			c.Fail("c15:honest-correlation-broken", what, rep("accept, correlation broken", "accept, correlation holds"))
+		} else if strings.HasPrefix(p.Class, "pair-flip:") || strings.HasPrefix(p.Class, "multi-flip:") {
+			bad := -1
+			for i, q := range sent {
+				if run.b[i] {
+					q.Xor(run.delta)
+				}
+				if !q.Equal(run.rcvd[i]) {
+					bad = i
+					break
+				}
+			}
+			c.Fail("c15:"+p.Class+":accepted-inconsistent",
+				fmt.Sprintf("sender accepted but OT[%d] breaks the correlation: %d flips %v cancel in the check (n=%d, %d of them in columns Delta selects)",
+					bad, len(p.Flips), p.Flips, run.n, selPay+selChk),
+				rep(fmt.Sprintf("accept, OT[%d] inconsistent", bad), "error"))
 		} else {
 			c.Fail("c15:accepted-correlation-broken:"+p.Class+run.sizeTag(p), what, rep("accept, correlation broken", "error"))
 		}
 	} else if selPay+selChk > 0 {
+		if strings.HasPrefix(p.Class, "pair-flip:") || strings.HasPrefix(p.Class, "multi-flip:") {
+			c.Fail("c15:"+p.Class+":accepted-selected-column-flip",
+				fmt.Sprintf("sender accepted although %d bit(s) in columns selected by Delta were altered (flips %v)", selPay+selChk, p.Flips),
+				rep("accept", "error"))
+			goto done
+		}
 		c.Fail("c15:accepted-selected-column-flip:"+p.Class+run.sizeTag(p),
 			fmt.Sprintf("sender accepted although %d bit(s) in columns selected by Delta were altered (check batch: %d)", selPay+selChk, selChk),
 			rep("accept", "error"))
 	}
+done:
 	items := []SX{I(1), Bool(corr)}
 	for _, q := range sent {
 		items = append(items, polySX(q))
@@ -563,6 +586,102 @@ func (run *c15Run) boundaryPatterns(r *RNG, extra int) []*c15Pattern {
 		ps = append(ps, &c15Pattern{Class: "boundary-single-unselected", Flips: []c15Flip{{0, j, n - 1}}})
 	}
 	return ps
+}
+
+// multiPatterns: deviations of two (three, four) flips whose contributions to
+// the check cancel exactly when the rows involved share a chi coefficient:
+//   same-col-rows+<blk>k     one column, payload rows a and a + blk*k (blk = chi block, 1024)
+//   payload+check-same-pos   the same (row, column) in the payload and in the check batch
+//   same-row-two-cols        one payload row, two columns
+//   same-col-adjacent-rows   one column, payload rows a and a+1
+//   triples / two-column quadruples of the first two shapes
+// for columns Delta selects (sel) and does not select.  count <= 0: one of each.
+func (run *c15Run) multiPatterns(r *RNG, rounds int) []*c15Pattern {
+	n := run.n
+	cb := c15ChiBlock()
+	var ps []*c15Pattern
+	if n == 0 {
+		return ps
+	}
+	col := func(sel bool) int {
+		bit := uint(0)
+		if sel {
+			bit = 1
+		}
+		j := run.columnWith(r, bit)
+		if j < 0 {
+			j = run.columnWith(r, 1-bit)
+		}
+		return j
+	}
+	add := func(shape string, fl ...c15Flip) {
+		ps = append(ps, &c15Pattern{Class: shape, Flips: dedupFlips(fl)})
+	}
+	for round := 0; round < rounds; round++ {
+		sel := round%4 != 3 // mostly selected columns
+		j := col(sel)
+		// rows a, a + cb*k
+		if n > cb {
+			a := r.Intn(n - cb)
+			k := 1 + r.Intn((n-1-a)/cb)
+			add(fmt.Sprintf("pair-flip:same-col-rows+%dk", cb), c15Flip{0, j, a}, c15Flip{0, j, a + cb*k})
+			if round%3 == 0 { // also the first/last possible rows
+				add(fmt.Sprintf("pair-flip:same-col-rows+%dk", cb), c15Flip{0, j, 0}, c15Flip{0, j, cb})
+				add(fmt.Sprintf("pair-flip:same-col-rows+%dk", cb), c15Flip{0, j, n - 1 - cb}, c15Flip{0, j, n - 1})
+			}
+			if n > 2*cb {
+				a3 := r.Intn(n - 2*cb)
+				add(fmt.Sprintf("multi-flip:triple-same-col-rows+%dk", cb), c15Flip{0, j, a3}, c15Flip{0, j, a3 + cb}, c15Flip{0, j, a3 + 2*cb})
+			}
+			j2 := col(true)
+			if j2 != j {
+				add(fmt.Sprintf("multi-flip:two-cols-rows+%dk", cb), c15Flip{0, j, a}, c15Flip{0, j, a + cb*k}, c15Flip{0, j2, a}, c15Flip{0, j2, a + cb*k})
+			}
+			if a < c15CheckRows {
+				add("multi-flip:triple-payload-payload-check", c15Flip{0, j, a}, c15Flip{0, j, a + cb}, c15Flip{1, j, a})
+			}
+		}
+		// the same (row, column) in payload and check batch
+		lim := n
+		if lim > c15CheckRows {
+			lim = c15CheckRows
+		}
+		a := r.Intn(lim)
+		if round == 0 {
+			a = 0
+		} else if round == 1 {
+			a = lim - 1
+		}
+		add("pair-flip:payload+check-same-pos", c15Flip{0, j, a}, c15Flip{1, j, a})
+		// the same row, two columns
+		j2 := col(round%2 == 0)
+		if j2 != j {
+			ra := r.Intn(n)
+			add("pair-flip:same-row-two-cols", c15Flip{0, j, ra}, c15Flip{0, j2, ra})
+		}
+		// adjacent rows, one column
+		if n >= 2 {
+			ra := r.Intn(n - 1)
+			add("pair-flip:same-col-adjacent-rows", c15Flip{0, j, ra}, c15Flip{0, j, ra + 1})
+		}
+		// check batch only: adjacent rows
+		cr := r.Intn(c15CheckRows - 1)
+		add("pair-flip:check-same-col-adjacent-rows", c15Flip{1, j, cr}, c15Flip{1, j, cr + 1})
+	}
+	return ps
+}
+
+// chiDistinct: the hypothesis of the pair theorems (C15_pair_*_detected): the
+// coefficients at the n+256 stream positions are pairwise different
+func (run *c15Run) chiDistinct() bool {
+	seen := map[ot.Label]bool{}
+	for _, l := range run.chi {
+		if seen[l] {
+			return false
+		}
+		seen[l] = true
+	}
+	return true
 }
 
 func (run *c15Run) patternSX(p *c15Pattern) SX {
@@ -948,8 +1067,8 @@ func runC15(c *Ctx) error {
 	// --- correspondence + oracle: base runs with a handful of patterns each
 	sizes := []int{0, 1, 2, 3, 5, 7, 8, 9, 13, 15, 16, 17, 31, 33, 63, 64, 65, 100, 127, 128, 129, 200, 255, 256, 257, 300}
 	bigSizes := []int{511, 512, 513, 520, 777, 1023, 1024, 1025, 1100, 1536, 2049}
-	nBase := c.N(32, 600)
-	perBase := c.N(5, 12)
+	nBase := c.N(26, 600)
+	perBase := c.N(4, 12)
 	for i := 0; i < nBase; i++ {
 		r := c.rng.Fork()
 		n := sizes[i%len(sizes)]
@@ -976,7 +1095,25 @@ func runC15(c *Ctx) error {
 			c.Hist("pre-batch")
 		}
 		pats := run.genPatterns(r, perBase)
+		// multi-flip deviations on every run: two of them in the correspondence case ...
+		mp := run.multiPatterns(r, c.N(3, 8))
+		nadd := 0
+		for _, p := range mp {
+			if nadd < c.N(2, 4) && (p.Class == "pair-flip:payload+check-same-pos" && nadd == 0 || nadd > 0 && r.Intn(3) == 0) {
+				pats = append(pats, p)
+				nadd++
+			}
+		}
 		run.emitCase(c, r, i, pats)
+		// ... the others on the implementation only
+		for _, p := range mp {
+			run.evalPattern(c, r, i, p)
+		}
+		if !run.chiDistinct() {
+			c.Note("base %d: the chi coefficients of the observed seed are NOT pairwise distinct", i)
+		} else {
+			c.Hist("chi-pairwise-distinct")
+		}
 		if i < 3 {
 			c.Sample(map[string]interface{}{"n": n, "pre": pre, "delta": run.delta.String(), "patterns": len(pats)})
 		}
@@ -994,7 +1131,7 @@ func runC15(c *Ctx) error {
 		model bool
 	}
 	bounds := []bsize{{c15CheckRows, true}, {c15ChunkRows, true}, {cb, true}, {2 * cb, true},
-		{cb - 1, true}, {cb + 1, true},
+		{cb - 1, false}, {cb + 1, true},
 		{c15CheckRows - 1, false}, {c15CheckRows + 1, false}, {c15ChunkRows - 1, false}, {c15ChunkRows + 1, false},
 		{2*cb - 1, false}, {2*cb + 1, false}, {cb + c15ChunkRows, false}}
 	if c.Thorough() {
@@ -1029,6 +1166,9 @@ func runC15(c *Ctx) error {
 			}
 			run.emitCase(c, r, 2000+k, pats)
 		}
+		for _, p := range run.multiPatterns(r, c.N(4, 16)) {
+			run.evalPattern(c, r, 2000+k, p)
+		}
 		// oracle only: more columns, more rows of the last block
 		for rep := 0; rep < c.N(6, 40); rep++ {
 			for _, p := range run.boundaryPatterns(r, c.N(4, 32)) {
@@ -1037,6 +1177,40 @@ func runC15(c *Ctx) error {
 				}
 				run.evalPattern(c, r, 2000+k, p)
 			}
+		}
+	}
+
+	// --- multi-flip deviations across chi blocks: rows a and a + 1024k need n > 1024
+	for k, n := range []int{cb + cb/2 - 36, 2*cb + 52, 3*cb + 28} { // 1500, 2100, 3100
+		r := c.rng.Fork()
+		run, err := newC15Run(r, n, 0, c15Choices(r, n), c15Delta(r, 2+k))
+		if err != nil {
+			c.Fail("c15:honest-abort", "honest receiver/setup failed: "+err.Error(), map[string]int{"n": n})
+			continue
+		}
+		c.Hist(fmt.Sprintf("multi-n:%d", n))
+		mp := run.multiPatterns(r, c.N(12, 60))
+		if k == 0 || c.Thorough() {
+			// correspondence case: honest + one pattern of each cross-block shape
+			pats := []*c15Pattern{{Class: "honest"}}
+			seen := map[string]bool{}
+			for _, p := range mp {
+				if !seen[p.Class] && (strings.Contains(p.Class, "rows+") || strings.Contains(p.Class, "payload+check") || strings.Contains(p.Class, "triple")) &&
+					run.delta.Bit(p.Flips[0].Col) == 1 {
+					seen[p.Class] = true
+					pats = append(pats, p)
+				}
+			}
+			if !c.Thorough() && len(pats) > 3 {
+				pats = pats[:3]
+			}
+			run.emitCase(c, r, 3000+k, pats)
+		}
+		for _, p := range mp {
+			run.evalPattern(c, r, 3000+k, p)
+		}
+		if honest, _, herr := run.sender(r, run.msgs); herr != nil || !run.correlationHolds(honest) {
+			c.Fail("c15:honest-abort", fmt.Sprintf("honest malicious-mode run failed for n=%d: %v", n, herr), map[string]int{"n": n})
 		}
 	}
 
